@@ -1017,36 +1017,52 @@ def date_cases() -> list[dict[str, Any]]:
     from dateutil import parser as dparser
     from liquid2 import RenderContext
     items = []
+    combos: list[tuple[str, str, str, str]] = []     # (left kind, dat, format kind, fmt)
     for dat in DATE_INPUTS:
         for kind, fmt in DATE_FORMATS:
-            if dat.isdigit():
-                lib: str | None = datetime.datetime.fromtimestamp(int(dat)).strftime(fmt)
-            else:
-                try:
-                    lib = dparser.parse(dat).strftime(fmt)
-                except (dparser.ParserError, OverflowError):
-                    lib = None
-            data: dict[str, Any] = {"d": dat}
-            if kind == "data":
-                data["f"] = fmt
-                src = "{{ d | date: f }}"
-            else:
-                src = "{{ d | date: " + Src.quote(fmt) + " }}"
-            tmpl = env().from_string(src)
+            combos.append(("data", dat, kind, fmt))
+            if not ("'" in dat and '"' in dat):
+                combos.append(("lit", dat, kind, fmt))   # a literal left value (Markup) with a data / literal format
+    for dat in ("now", "today"):                          # the clock: only formats whose result does not depend on it
+        for kind, fmt in [("data", "<b>"), ("data", "&'\"100%%"), ("lit", "<i>x</i>"), ("data", "")]:
+            combos.append(("lit", dat, kind, fmt))
+            combos.append(("data", dat, kind, fmt))
+    for lkind, dat, kind, fmt in combos:
+        if dat in ("now", "today"):
+            lib: str | None = datetime.datetime.now().strftime(fmt)
+        elif dat.isdigit():
+            lib = datetime.datetime.fromtimestamp(int(dat)).strftime(fmt)
+        else:
             try:
-                ctx = RenderContext(tmpl, global_data=tmpl.make_globals(dict(data)))
-                ty = f"(Ok {c_val(enc(tmpl.nodes[0].expression.evaluate(ctx)))})"
-            except Exception as e:  # noqa: BLE001
-                ty = exc_term(e)
-            md = render_modes(tmpl, data)
-            tx = f"(Ok {C.cstr(md['sync'][1])})" if md["sync"][0] == "ok" else md["sync"][1]
-            txa = f"(Ok {C.cstr(md['async'][1])})" if md["async"][0] == "ok" else md["async"][1]
-            tab = C.clist([C.cpair(C.cpair(C.cstr(dat), C.cstr(fmt)), C.copt(None if lib is None else C.cstr(lib), "str"))],
-                          "((str * str) * option str)")
-            m = f"(date_filter (dtbl {tab}) {C.cstr(dat)} ({C.cbool(kind == 'lit')}, {C.cstr(fmt)}))"
-            items.append({"case": f"(rv_eqb (Ok (vstr {m})) {ty} && rs_eqb (Ok (tls_ae (vstr {m}))) {tx} && rs_eqb (Ok (tls_ae (vstr {m}))) {txa})",
-                          "model": f"vstr {m}",
-                          "replay": {"src": src, "data": data, "library_strftime": lib, "typed": ty, "text": tx}})
+                lib = dparser.parse(dat).strftime(fmt)
+            except (dparser.ParserError, OverflowError):
+                lib = None
+        data: dict[str, Any] = {}
+        if lkind == "data":
+            data["d"] = dat
+            lsrc = "d"
+        else:
+            lsrc = Src.quote(dat)
+        if kind == "data":
+            data["f"] = fmt
+            src = "{{ " + lsrc + " | date: f }}"
+        else:
+            src = "{{ " + lsrc + " | date: " + Src.quote(fmt) + " }}"
+        tmpl = env().from_string(src)
+        try:
+            ctx = RenderContext(tmpl, global_data=tmpl.make_globals(dict(data)))
+            ty = f"(Ok {c_val(enc(tmpl.nodes[0].expression.evaluate(ctx)))})"
+        except Exception as e:  # noqa: BLE001
+            ty = exc_term(e)
+        md = render_modes(tmpl, data)
+        tx = f"(Ok {C.cstr(md['sync'][1])})" if md["sync"][0] == "ok" else md["sync"][1]
+        txa = f"(Ok {C.cstr(md['async'][1])})" if md["async"][0] == "ok" else md["async"][1]
+        tab = C.clist([C.cpair(C.cpair(C.cstr(dat), C.cstr(fmt)), C.copt(None if lib is None else C.cstr(lib), "str"))],
+                      "((str * str) * option str)")
+        m = f"(date_filter (dtbl {tab}) {C.cstr(dat)} ({C.cbool(kind == 'lit')}, {C.cstr(fmt)}))"
+        items.append({"case": f"(rv_eqb (Ok (vstr {m})) {ty} && rs_eqb (Ok (tls_ae (vstr {m}))) {tx} && rs_eqb (Ok (tls_ae (vstr {m}))) {txa})",
+                      "model": f"vstr {m}",
+                      "replay": {"src": src, "data": data, "library_strftime": lib, "typed": ty, "text": tx}})
     return items
 
 
@@ -1143,6 +1159,7 @@ def main(chk: C.Check, build: C.Build) -> None:
     from . import c04_programs as P
     pr = P.program_level(chk, C.rng("c04", "programs"), 600 if not thorough else 6000)
     oo = oracle_only_chains(chk, C.rng("c04", "unmodelled"), 800 if not thorough else 8000)
+    sp = P.special_streams(chk, C.rng("c04", "special"), 150 if not thorough else 1500)
     date_cache_witness(chk)
 
     ex["items"] += date_cases()
@@ -1153,22 +1170,27 @@ def main(chk: C.Check, build: C.Build) -> None:
 
     st = ex["stats"]
     chk.coverage.update({
-        "evaluations": st["cases"] + pr["programs"] + oo["rendered"],
-        "distinct_nontrivial": len(ex["nontrivial"]) + len(pr["nontrivial"]) + len(oo["nontrivial"]),
+        "evaluations": st["cases"] + pr["programs"] + oo["rendered"] + sp["programs"],
+        "distinct_nontrivial": len(ex["nontrivial"]) + len(pr["nontrivial"]) + len(oo["nontrivial"]) + len(sp["nontrivial"]),
         "rule": ("expression level: the recorded corpus, a fixed sweep (every modelled filter x boundary left values x boundary "
                  "arguments; quick: a seeded 22% of it) and seeded random chains of length <= "
                  f"{4 if not thorough else 6} over the Markup-aware filters with literal and data arguments, applied to data strings over "
                  "{< > & ' \" a} mixed with entity/percent/newline fragments, nested lists, ints, nil, bools, literals, template strings and "
                  "captures; each is run on the real engine (typed value of FilteredExpression.evaluate + Template.render) and in the Coq model. "
                  "oracle-only chains additionally mix in the filters outside the model (sorting, map/where/find, arithmetic, date, t/gettext/"
-                 "ngettext/pgettext/npgettext, json with indent). "
+                 "ngettext/pgettext/npgettext, json with indent). special streams (oracle only, both API modes): translation filters with "
+                 "data-supplied messages, plural forms (count != 1), contexts and message variables, and `date` with a data FORMAT and a literal "
+                 "left value ('now', 'today', an assigned literal, `missing | default: 'now'`), on the default environment and on environments "
+                 "that called the documented register_translation_filters(env) / (env, replace=True); undefined paths whose keys come from data "
+                 "under undefined=DebugUndefined. "
                  "program level (oracle only): generated templates with captures, partials (render/include), macros, loops, template-string "
                  "interpolation, translate blocks, block.super, cycle/echo/assign/liquid tags, plain literals, data strings over "
                  "{< > & ' \" a}* nested in lists and dicts, as dict keys and as filter arguments. "
                  "non-trivial = distinct (source, data) whose data contains at least one of the five characters and whose render reached the "
                  "oracle (so the escaping mechanism decided the output)"),
         "samples": ex["samples"] + pr["samples"][:2],
-        "distribution": {"expression": st, "program": pr["stats"], "oracle_only_chains_rendered": oo["rendered"]},
+        "distribution": {"expression": st, "program": pr["stats"], "oracle_only_chains_rendered": oo["rendered"],
+                         "special_streams": sp["stats"]},
         "exhaustive": False,
         "tier_proved": "kernel (Markup value algebra, filters, filter chains, template strings, captures)",
     })
